@@ -197,7 +197,7 @@ func (o Op) apply(ed rosed.Editor) rosed.Editor {
 
 // obsTok renders what the harness observes of an Editor.
 func obsTok(ed rosed.Editor) string {
-	has, start, end, _ := rosed.VerifRef(ed)
+	has, start, end := refOf(ed)
 	str := func() (s string) {
 		defer func() {
 			if r := recover(); r != nil {
@@ -206,7 +206,7 @@ func obsTok(ed rosed.Editor) string {
 		}()
 		return bstr(ed.String())
 	}()
-	return strings.Join([]string{"K", bstr(ed.Text), optsTok(ed.Options), b01(has), itoa(start), itoa(end), str,
+	return strings.Join([]string{"K", bstr(ed.Text), optsTok(ed.Options), b01(has), start, end, str,
 		itoa(ed.CharCount()), itoa(ed.LineCount())}, "|")
 }
 
